@@ -215,6 +215,9 @@ def gen_case(rng):
                                 reverse=mrng.random() < 0.3)
         if mrng.random() < 0.4:
             spec['ref_ant'] = mrng.choice(spec['ants'])
+    common = [a for a in parts[0]['ants'] if all(a in p['ants'] for p in parts)]
+    if common and mrng.random() < 0.3:
+        gen['open_ref_ant'] = mrng.choice(common)       # katdal.open([...], ref_ant): the same for every part
     return gen
 
 
@@ -1357,10 +1360,11 @@ def run_case(ctx, cseed, gen=None, stages=('open', 'data', 'select', 'scans', 'o
             out = ctx.model([[19, [wire_parts, wnames, [int(x) for x in gen['keep']]]]])[0]
             c, exc, how = None, None, ''
             try:
-                c, how = c19parts.open_concat(parts, order, gen['via_open'])
+                c, how = c19parts.open_concat(parts, order, gen['via_open'], gen.get('open_ref_ant', ''))
             except Exception as e:      # noqa: BLE001
                 exc = e
             ctx.count('fmt=' + cs.fmt)
+            ctx.count('built_by=%s;fmt=%s' % (how or 'refused', cs.fmt))
             ctx.count('kind=' + gen['kind'])
             if gen['kind'] == 'period':
                 ctx.count('dump_periods=' + ('equal_to_6_digits_only' if any(p['dt'] not in (2.0, 4.0) for p in gen['parts']) else 'clearly_different'))
@@ -1608,7 +1612,7 @@ def run(ctx):
     for f in ctx.findings:
         w = f['witness']
         run_case(ctx, w.get('cseed', 0), gen=w.get('gen'))
-    n = ctx.scale(62, 1000)
+    n = ctx.scale(52, 1000)
     seeds = [ctx.rng.randrange(1 << 30) for _ in range(n)]
     kinds = {}
 
